@@ -224,9 +224,21 @@ theorem d_inv {s s' : Sys} (h : Inv s) (hd : s'.drv = s.drv) (hcfg : ∀ g, CfgO
   have pe : ∀ r ∈ s.drv.mmuIn, ReqOK s' r ∧ PagesOK s' r ∧ r.id = s.drv.taken.length := fun r hr =>
     ⟨d_reqOK hd (h.pending r hr).1, d_pagesOK hd (h.pending r hr).2.1, (h.pending r hr).2.2⟩
   have fr : FramesIn s.drv.alloc s'.w.sys := d_framesIn hsz h.frames
+  have rl : RangeOK s.drv.alloc ∧
+      (∀ m ∈ s.drv.toCP, ∃ d, (d = 1 ∨ d = 2) ∧ s.drv.alloc.deviceOf m.rd = some d ∧
+        m.rd + (1 <<< s.drv.alloc.lg) ≤ (s'.w.sys.mem (d - 1)).size) ∧
+      (s.drv.one = true → ∃ d, (d = 1 ∨ d = 2) ∧ s.drv.alloc.deviceOf s.drv.oldF = some d ∧
+        s.drv.oldF + (1 <<< s.drv.alloc.lg) ≤ (s'.w.sys.mem (d - 1)).size) := by
+    refine ⟨h.rel.ranges, ?_, ?_⟩
+    · intro m hm
+      obtain ⟨d, a, b, c⟩ := h.rel.queued m hm
+      exact ⟨d, a, b, by rw [hsz]; exact c⟩
+    · intro ho
+      obtain ⟨d, a, b, c⟩ := h.rel.flying ho
+      exact ⟨d, a, b, by rw [hsz]; exact c⟩
   obtain ⟨d, cp, cm, w, _, _, _⟩ := s'
-  dsimp only at hd hsz hcfg pe fr; subst hd
-  exact ⟨hcfg, h.ng, h.caps, h.nf, fr, h.lg, h.logIds, pe, hph⟩
+  dsimp only at hd hsz hcfg pe fr rl; subst hd
+  exact ⟨hcfg, h.ng, h.caps, h.nf, fr, h.lg, h.logIds, pe, hph, ⟨rl.1, rl.2.1, rl.2.2⟩⟩
 
 theorem d_cfg_upd {s : Sys} (h : ∀ g, CfgOK (s.cp g)) (g : Nat) (c' : Cp) (hc' : CfgOK c') :
     ∀ g', CfgOK (upd s.cp g c' g') := by
